@@ -13,6 +13,10 @@ PROPS = {
         "vx": ["cone"],
         "level": "proof",
     },
+    "C13": {
+        "vx": ["meta"],
+        "level": "proof",
+    },
     "C15": {
         "vx": ["solver_reader"],
         "kl": ["solver_msg"],
